@@ -761,18 +761,25 @@ class _Program:
         return out
 
     # -- calls
-    def perform(self, ns: dict[str, Any], call: dict[str, Any], live: dict[str, Any]) -> Any:
-        """Materialise the arguments (kept in ``live``) and perform the call; generators are drained (64 items)."""
+    def prepare(self, ns: dict[str, Any], call: dict[str, Any], live: dict[str, Any]) -> None:
+        """Materialise the arguments freshly (kept in ``live``).  A failure here is a harness error, not an outcome."""
         if self.kind == "stdlib":
             live["args"] = [V.materialise(r) for r in call["args"]]
+        else:
+            live["args"] = [pygen.materialise(r, ns) for r in call.get("args", [])]
+            if "." in call["target"]:
+                live["init"] = [pygen.materialise(r, ns) for r in call.get("init", [])]
+
+    def perform(self, ns: dict[str, Any], call: dict[str, Any], live: dict[str, Any]) -> Any:
+        """Perform the call on the prepared arguments; generators are drained (64 items)."""
+        if self.kind == "stdlib":
             assert self.spec is not None
             res = eval(self.spec["call"], ns, {"args": live["args"]})  # noqa: S307
         else:
-            live["args"] = [pygen.materialise(r, ns) for r in call.get("args", [])]
             target = call["target"]
             if "." in target:
                 cname, member = target.split(".", 1)
-                live["recv"] = ns[cname](*[pygen.materialise(r, ns) for r in call.get("init", [])])
+                live["recv"] = ns[cname](*live["init"])
                 attr = getattr(live["recv"], member)
                 res = attr(*live["args"]) if callable(attr) and call.get("kind") != "prop" else attr
             else:
@@ -829,16 +836,14 @@ def observe(prog: _Program, ns: dict[str, Any], call: dict[str, Any], tracer: An
     exc: BaseException | None = None
     res: Any = None
     try:
-        try:
-            if tracer is not None:
-                with tracer:
-                    res = prog.perform(ns, call, live)
-            else:
+        with tracer if tracer is not None else contextlib.nullcontext():
+            prog.prepare(ns, call, live)  # inside the tracer context: {"t": "obj"} recipes run constructors of the program
+            try:
                 res = prog.perform(ns, call, live)
-        except MemoryError:
-            raise
-        except BaseException as e:  # noqa: BLE001  (generated code raises on purpose)
-            exc = e
+            except MemoryError:
+                raise
+            except BaseException as e:  # noqa: BLE001  (generated code raises on purpose)
+                exc = e
     finally:
         sys.stdout = old_stdout
     log = V.take_log()
